@@ -132,10 +132,7 @@ def run_one(ctl: explorer.Ctl, cfg: Dict[str, Any]) -> Dict[str, Any]:
         if mo == "before-first":
             pass
         elif mo == "in-flight":
-            if ex == "normal":
-                await write.send(dict(REQ))
-                await q.settle()
-            elif ex == "exception":
+            if ex in ("normal", "exception", "scope-cancel-during-exit", "exception-then-scope-cancel-during-exit"):
                 await write.send(dict(REQ))
                 await q.settle()
             else:
@@ -147,7 +144,7 @@ def run_one(ctl: explorer.Ctl, cfg: Dict[str, Any]) -> Dict[str, Any]:
                 await request(read, write)
             except (TimeoutError, Exception):  # noqa: BLE001
                 pass
-        if ex == "exception":
+        if ex in ("exception", "exception-then-scope-cancel-during-exit"):
             info["t_exit_begin"] = loop.time()
             raise _BodyError("body failed")
         if ex in ("task-cancel", "scope-cancel", "fail-after"):
@@ -212,6 +209,23 @@ def run_one(ctl: explorer.Ctl, cfg: Dict[str, Any]) -> Dict[str, Any]:
                 info["t_exit_begin"] = t0 + 2.5
                 with anyio.fail_after(2.5):
                     await use_client()
+            elif ex in ("scope-cancel-during-exit", "exception-then-scope-cancel-during-exit"):
+                with anyio.CancelScope() as scope:
+                    async def canceller2():
+                        while "t_exit_begin" not in info:
+                            await q.settle()
+                            await asyncio.sleep(0.01)
+                        await asyncio.sleep(cfg.get("during", 0.5))
+                        info["t_cancel_during_exit"] = loop.time()
+                        scope.cancel()
+                    ct = asyncio.ensure_future(canceller2())
+                    try:
+                        await use_client()
+                    except _BodyError:
+                        info["body_error_seen"] = True
+                    finally:
+                        ct.cancel()
+                outcome = "left-under-cancel"
         except _BodyError:
             outcome = "body-error-propagated"
         except asyncio.CancelledError:
@@ -230,12 +244,12 @@ def run_one(ctl: explorer.Ctl, cfg: Dict[str, Any]) -> Dict[str, Any]:
     status, val = loop.run_main(main())
     errors = loop.collect_errors()
     loop.abandon()
-    obs: Dict[str, Any] = {"status": status, "cfg": f"{b}/{ex}/{mo}/{cfg.get('order')}/{cfg.get('entry', 'stdio_client')}"}
+    obs: Dict[str, Any] = {"status": status, "cfg": f"{b}/{ex}/{mo}/{cfg.get('order')}/{cfg.get('entry', 'stdio_client')}/{cfg.get('during')}"}
     viol: List[dict] = []
 
     def bad(cls, msg, **extra):
         viol.append({"sig": {"class": cls, "exit": ex, **extra},
-                     "msg": f"entry={cfg.get('entry', 'stdio_client')} behaviour={b} exit={ex} moment={mo} order={cfg.get('order')} term={cfg.get('term_delay', 0.0)} "
+                     "msg": f"entry={cfg.get('entry', 'stdio_client')} behaviour={b} exit={ex} moment={mo} during={cfg.get('during')} order={cfg.get('order')} term={cfg.get('term_delay', 0.0)} "
                             f"kill={cfg.get('kill_delay', 0.0)}: {msg}"})
 
     if status != "ok":
@@ -261,7 +275,9 @@ def run_one(ctl: explorer.Ctl, cfg: Dict[str, Any]) -> Dict[str, Any]:
         bad("exit-too-slow", f"leaving the context took {dur:.6f}s of virtual time (> 2 grace periods)")
     # 2. propagation
     want = {"normal": "returned", "exception": "body-error-propagated", "task-cancel": "cancelled-propagated",
-            "scope-cancel": "scope-cancelled", "fail-after": "timeout-propagated"}[ex]
+            "scope-cancel": "scope-cancelled", "fail-after": "timeout-propagated",
+            "scope-cancel-during-exit": "left-under-cancel",
+            "exception-then-scope-cancel-during-exit": "left-under-cancel"}[ex]
     if info["outcome"] != want:
         bad("wrong-exit-outcome", f"context exit ended with {info['outcome']!r}, expected {want!r}")
     # 3. child gone: either it has exited, or both signals were delivered in order with the grace period
@@ -367,6 +383,13 @@ def configs_for(tier: str):
     for td, kd, e, m in itertools.product(delays_t, delays_k, exits, moments):
         for o in ("fifo", "lifo"):
             timing.append({"behaviour": "well", "exit": e, "moment": m, "term_delay": td, "kill_delay": kd, "order": o})
+    # cancellation that arrives while the context is already being left (shutdown in progress)
+    for b in ("well", "slow-exit-0.5", "ignore-term", "ignore-both", "stdin-blocks", "stdout-flood"):
+        for e in ("scope-cancel-during-exit", "exception-then-scope-cancel-during-exit"):
+            for m in MOMENTS:
+                for during in (0.0, 0.25, 0.5, 1.0 - EPS, 1.0, 1.0 + EPS, 1.5):
+                    for o in ("fifo", "lifo"):
+                        base.append({"behaviour": b, "exit": e, "moment": m, "order": o, "during": during})
     return base, timing
 
 
